@@ -16,17 +16,18 @@ def oracle(rec):
     first, last = ts[0][3], ts[-1][3]
     contra = any(o == "c 1" for o in rec["impl"] if o)
     fg = any(n.get("fully_grounded") for n in rec["prog"]["kb"]["nodes"])
+    qd = any(n["kind"] in ("forall", "exists") for n in rec["prog"]["kb"]["nodes"])
     for i, rows in first.items():
         for g, b in rows.items():
             b2 = last.get(i, {}).get(g)
             if b2 != b:
                 return {"problem": "bounds after reset_bounds()+infer() differ from the first run", "formula": i, "grounding": g,
-                        "first": list(map(str, b)), "again": None if b2 is None else list(map(str, b2)), "contradictory_data": contra, "fully_grounded": fg}
+                        "first": list(map(str, b)), "again": None if b2 is None else list(map(str, b2)), "contradictory_data": contra, "fully_grounded": fg, "quantified": qd}
     for i, rows in last.items():
         for g, b in rows.items():
             if g not in first.get(i, {}):
                 return {"problem": "second run has a grounding the first run did not have", "formula": i, "grounding": g,
-                        "contradictory_data": contra, "fully_grounded": fg}
+                        "contradictory_data": contra, "fully_grounded": fg, "quantified": qd}
     if rec["meta"]["errors"]:
         return {"exception": rec["meta"]["errors"]}
     return None
@@ -48,7 +49,7 @@ def run(rep, tier, seed):
     wrec = shrink.run_one("fol", "run_fol_program", w)
     wbad = None if "crash" in wrec else oracle(wrec)
     rep.extra["known_finding_D14_witness_reproduces"] = bool(wbad)
-    if wbad and wbad.get("fully_grounded") and not wbad.get("contradictory_data"):
+    if wbad and wbad.get("quantified") and not wbad.get("contradictory_data"):
         rep.enable_known("D14")
     n = 80 if tier == "quick" else 1500
     for name, quant in (("fol-qf", False), ("quant", True)):
